@@ -683,3 +683,35 @@ func c9Engines(r *h.Result, rng *h.Rng, n int, fixed []*c9EngCase) error {
 	}
 	return nil
 }
+
+// c9Refusals: a range function the in-process aggregators have no case for must be refused (NotSupported), not answered
+// with an empty matrix (ClickHouse computes stddev_over_time / stdvar_over_time)
+func c9Refusals(r *h.Result) error {
+	r.Stream("refusals: range functions without a case in the in-process aggregators (stddev_over_time, stdvar_over_time, sum_over_time without unwrap, count_over_time over an unwrapped value) end in NotSupported")
+	e := func(ts int64, msg string) c9Entry {
+		return c9Entry{Ts: ts, Fp: 7, Labels: map[string]string{"x": "y"}, Msg: msg}
+	}
+	batches := [][]c9Entry{{e(1e9, `{"v":"5"}`), e(2e9, `{"v":"3"}`), e(3e9, `{"v":"9"}`)}, {{Err: "eof"}}}
+	var runs []c9Case
+	for _, q := range []string{
+		`stddev_over_time({x="y"} | json | unwrap v [1m])`,
+		`stdvar_over_time({x="y"} | json | unwrap v [1m])`,
+		`sum_over_time({x="y"} | json [1m])`,
+		`count_over_time({x="y"} | json | unwrap v [1m])`,
+		`sum by (x) (stddev_over_time({x="y"} | json | unwrap v [1m]))`,
+	} {
+		runs = append(runs, c9Case{Query: q, From: 0, To: 120e9, Batches: batches})
+	}
+	outs, err := c9RunChild(runs)
+	if err != nil {
+		return err
+	}
+	for i, o := range outs {
+		r.Case("refusals:"+runs[i].Query, true)
+		if !(strings.HasPrefix(o.Skip, "process:") && strings.Contains(o.Skip, "not supported")) {
+			r.Violate("C09/unsupported-function-not-refused",
+				fmt.Sprintf("%s: the in-process engine has no case for the function and answered %q / %q instead of NotSupported (ClickHouse computes it)", runs[i].Query, o.Skip, o.Canon), runs[i])
+		}
+	}
+	return nil
+}
